@@ -28,13 +28,18 @@ var writeKinds = []string{"execute", "execute", "execute", "execute", "execute",
 // genSteps builds the script of one run: bursts of tagged writes (in the
 // background, so that rounds overlap them), waits counted in upload rounds,
 // quiet stretches (no write in flight), strong reads (raft entries that do not
-// change the database) and uploader restarts.
+// change the database), uploader restarts, and "flaps": stretches of ticks on
+// which the upload-enabled predicate handed to Uploader.Start answers no (in
+// rqlited the predicate is Store.IsLeader), combined with changes made while
+// disabled, changes racing the switch, a storage outage whose failed upload is
+// still outstanding when the uploader is disabled, nothing changed at all, and
+// an uploader restart while disabled.
 func genSteps(c *vf.Ctx, runNo, rounds int) []step {
 	r := c.Rand(uint64(1000 + runNo))
 	var out []step
 	total := 0
 	for total < rounds {
-		switch p := r.IntN(20); {
+		switch p := r.IntN(25); {
 		case p < 8:
 			n := 1 + r.IntN(6)
 			var ks []string
@@ -59,10 +64,44 @@ func genSteps(c *vf.Ctx, runNo, rounds int) []step {
 			w := 2 + r.IntN(3)
 			out = append(out, step{Op: "quiet", N: w})
 			total += w
-		default:
+		case p < 20:
 			// a single write followed by a quiet stretch: the change must be
 			// uploaded by the first round that starts after the acknowledgement
 			out = append(out, step{Op: "burst", Kinds: []string{writeKinds[r.IntN(len(writeKinds))]}})
+			w := 3 + r.IntN(3)
+			out = append(out, step{Op: "quiet", N: w})
+			total += w
+		default:
+			// flap: k ticks pass with upload disabled, then it is enabled again and
+			// a quiet stretch follows (no further write): whatever was changed and
+			// not uploaded successfully must be uploaded by the first round
+			burst := func() step {
+				n := 1 + r.IntN(3)
+				var ks []string
+				for i := 0; i < n; i++ {
+					ks = append(ks, writeKinds[r.IntN(len(writeKinds))])
+				}
+				return step{Op: "burst", Kinds: ks}
+			}
+			k := 1 + r.IntN(4)
+			switch r.IntN(7) {
+			case 0: // change made while disabled
+				out = append(out, step{Op: "quiet", N: 1}, step{Op: "off"}, burst(), step{Op: "join"}, step{Op: "offwait", N: k}, step{Op: "on"})
+				total++
+			case 1: // change racing the switch
+				out = append(out, burst(), step{Op: "off"}, step{Op: "offwait", N: k}, step{Op: "join"}, step{Op: "on"})
+			case 2, 6: // upload fails (outage), then disabled with the failure outstanding; the outage ends while disabled
+				w := 1 + r.IntN(2)
+				out = append(out, step{Op: "storage-fail"}, burst(), step{Op: "quiet", N: w}, step{Op: "off"}, step{Op: "offwait", N: k}, step{Op: "storage-heal"}, step{Op: "on"})
+				total += w
+			case 3: // nothing changes across the disabled stretch
+				out = append(out, step{Op: "quiet", N: 2}, step{Op: "off"}, step{Op: "offwait", N: k}, step{Op: "on"})
+				total += 2
+			case 4: // uploader restarted while disabled, after a change
+				out = append(out, step{Op: "off"}, burst(), step{Op: "join"}, step{Op: "offwait", N: k}, step{Op: "restart"}, step{Op: "offwait", N: 1 + r.IntN(2)}, step{Op: "on"})
+			default: // two disabled stretches back to back
+				out = append(out, step{Op: "off"}, burst(), step{Op: "join"}, step{Op: "offwait", N: k}, step{Op: "on"}, step{Op: "off"}, step{Op: "offwait", N: 1 + r.IntN(2)}, step{Op: "on"})
+			}
 			w := 3 + r.IntN(3)
 			out = append(out, step{Op: "quiet", N: w})
 			total += w
@@ -72,7 +111,8 @@ func genSteps(c *vf.Ctx, runNo, rounds int) []step {
 }
 
 func run(c *vf.Ctx) {
-	c.Rule("run = real single-node Store + store.NewProvider(vacuum, compress) + backup.Uploader (interval 30ms) with a recording storage client; script of ~150 upload rounds generated from the seed: bursts of 1-6 tagged writes in the background (via /db/execute, /db/request, /db/request with RETURNING), waits counted in rounds, quiet stretches, strong reads, uploader restarts, injected storage/provider failures (15%). evaluations = rounds judged + uploads examined; non-trivial = round that started with an acknowledged change not yet uploaded, or an unchanged round, or a round after a failed one, distinct by (run, round number, class); uploads distinct by (run, label)")
+	c.Rule("run = real single-node Store + store.NewProvider(vacuum, compress) + backup.Uploader (interval 30ms) started with a switchable upload-enabled predicate (rqlited passes Store.IsLeader) and a recording storage client; script of ~150 upload rounds generated from the seed: bursts of 1-6 tagged writes in the background (via /db/execute, /db/request, /db/request with RETURNING), waits counted in rounds, quiet stretches, strong reads, uploader restarts, injected storage/provider failures (15%), and flaps: 1-4 ticks on which the predicate answers no (each logged), with a change made while disabled / a change racing the switch / a scripted storage outage whose failed upload is outstanding when the uploader is disabled / no change / an uploader restart while disabled / two disabled stretches back to back, each followed by a quiet stretch. evaluations = rounds judged + uploads examined; non-trivial = round that started with an acknowledged change not yet uploaded (separately: first round after a disabled stretch), or an unchanged round, or a round after a failed one, distinct by (run, round number, class); uploads distinct by (run, label)")
+	c.Assume("a round is a LastIndex call that follows a tick on which the predicate answered yes; a LastIndex call after a 'no' is logged and counted, not judged; nothing is expected while disabled, everything outstanding is expected of the first round after re-enabling")
 	c.Assume("a write is acknowledged with the raft index reported by ?raft_index; 'changed' = a write acknowledged before the round started whose index is above the label of the last successful upload; 'unchanged' = every write started before the round ended was acknowledged at or below that label")
 	c.Assume("an unchanged round that re-uploads because the storage could not report its current ID (injected CurrentID failure after an uploader restart) is recorded, not judged")
 	c.Assume("uploaded objects are restored with the stock SQLite driver (sqlref)")
@@ -146,6 +186,12 @@ type roundInfo struct {
 	Provide   string // "", "ok", "failed", "failed-injected"
 	CurrentID *ev
 	Uploads   []ev
+	// Off: not a round — LastIndex was called although the uploader had just
+	// been told that upload is not enabled. Nothing is expected of it; a
+	// successful upload it makes still moves the last uploaded label.
+	Off bool
+	// OffBefore: ticks answered "not enabled" between the previous round and this one
+	OffBefore int
 }
 
 func judge(c *vf.Ctx, sp spec, res *runRes) {
@@ -181,12 +227,27 @@ func judge(c *vf.Ctx, sp spec, res *runRes) {
 			cur = nil
 		}
 	}
+	offTicks := 0
 	for i := range evs {
 		e := evs[i]
 		switch e.Kind {
 		case "round":
 			closeRound(e.Seq)
-			cur = &roundInfo{No: len(rounds), Inst: e.Inst, Start: e.Seq, Li: e.Li}
+			cur = &roundInfo{No: len(rounds), Inst: e.Inst, Start: e.Seq, Li: e.Li, OffBefore: offTicks}
+			offTicks = 0
+		case "li-off":
+			closeRound(e.Seq)
+			cur = &roundInfo{No: len(rounds), Inst: e.Inst, Start: e.Seq, Li: e.Li, Off: true}
+			c.Count("lastindex_calls_while_disabled", 1)
+		case "tick-off":
+			// the uploader asks on the tick, after the previous round returned
+			closeRound(e.Seq)
+			offTicks++
+			c.Count("ticks_disabled", 1)
+		case "gate-off":
+			c.Count("disabled_stretches", 1)
+		case "storage-fail":
+			c.Count("storage_outages", 1)
 		case "restart", "end":
 			closeRound(e.Seq)
 		case "provide-end":
@@ -211,7 +272,13 @@ func judge(c *vf.Ctx, sp spec, res *runRes) {
 			}
 		}
 	}
-	c.Count("rounds", int64(len(rounds)))
+	nOffRounds := 0
+	for _, r := range rounds {
+		if r.Off {
+			nOffRounds++
+		}
+	}
+	c.Count("rounds", int64(len(rounds)-nOffRounds))
 	for _, w := range order {
 		if w.ack >= 0 {
 			c.Count("writes_acknowledged:"+w.kind, 1)
@@ -232,8 +299,22 @@ func judge(c *vf.Ctx, sp spec, res *runRes) {
 
 	var lastOK uint64 // label of the last successful upload
 	prevFailed := false
-	sampled := false
+	sampled, sampledFlap := false, false
+	reported := map[string]bool{}
+	offSinceOK := 0 // ticks answered "not enabled" since the last successful upload
 	for _, r := range rounds {
+		if r.Off {
+			for i := range r.Uploads {
+				if r.Uploads[i].Err == "" {
+					c.Count("uploads_ok_while_disabled", 1)
+					if l, err := strconv.ParseUint(r.Uploads[i].ID, 10, 64); err == nil {
+						lastOK = l
+					}
+				}
+			}
+			continue
+		}
+		offSinceOK += r.OffBefore
 		c.Eval(1)
 		// classify the round's starting condition
 		var pending []*wr // acknowledged before the round started, not covered by lastOK
@@ -285,6 +366,14 @@ func judge(c *vf.Ctx, sp spec, res *runRes) {
 				c.Count("rounds_after_failed_round", 1)
 			}
 			c.Count("rounds_changed", 1)
+			if r.OffBefore > 0 {
+				// first round after a disabled stretch, with a change outstanding
+				class += "-first-after-disabled"
+				c.Count("rounds_changed_first_after_disabled", 1)
+				if prevFailed {
+					c.Count("rounds_changed_first_after_disabled_and_failed_round", 1)
+				}
+			}
 			c.Nontrivial(fmt.Sprintf("%d|%d|%s", sp.Run, r.No, class))
 			if okUp == nil && !roundFailed {
 				kinds := map[string]bool{}
@@ -310,18 +399,32 @@ func judge(c *vf.Ctx, sp spec, res *runRes) {
 					how = "index-not-advanced"
 				} else if r.CurrentID != nil && r.CurrentID.Err == "" && r.Provide == "ok" {
 					how = "skipped-by-current-id"
+				} else if offSinceOK > 0 {
+					// ticks with upload disabled have passed since the last successful upload
+					how = "no-storage-call-after-disabled-ticks"
 				}
 				key := fmt.Sprintf("change-not-uploaded:%s:writes=%s", how, strings.Join(ks, "+"))
 				if prevFailed && how != "index-not-advanced" {
 					key = "failed-upload-not-retried:" + key
 				}
-				c.Violation(key, fmt.Sprintf("run %d (vacuum=%v compress=%v) round %d started (LastIndex=%d) with %d acknowledged writes above the last uploaded label %d (%s), neither the provider nor the storage failed in this round, and nothing was uploaded",
-					sp.Run, sp.Vacuum, sp.Compress, r.No, r.Li, len(pending), lastOK, strings.Join(tags, ", ")),
+				verdict = false
+				if reported[key] {
+					// the same unuploaded change usually fails every following round
+					// too: one report per key and run, the rest is counted
+					c.Count("violating_rounds_not_reported_again", 1)
+					break
+				}
+				reported[key] = true
+				c.Violation(key, fmt.Sprintf("run %d (vacuum=%v compress=%v) round %d started (LastIndex=%d) with %d acknowledged writes above the last uploaded label %d (%s), neither the provider nor the storage failed in this round, and nothing was uploaded (%d ticks with upload disabled since that upload, %d directly before this round)",
+					sp.Run, sp.Vacuum, sp.Compress, r.No, r.Li, len(pending), lastOK, strings.Join(tags, ", "), offSinceOK, r.OffBefore),
 					rep(map[string]any{"round": r, "events": window(r.Start-12, r.End+2)}))
 				verdict = false
 			}
 		case unchangedCertain:
 			c.Count("rounds_unchanged", 1)
+			if r.OffBefore > 0 {
+				c.Count("rounds_unchanged_first_after_disabled", 1)
+			}
 			c.Nontrivial(fmt.Sprintf("%d|%d|unchanged", sp.Run, r.No))
 			if len(r.Uploads) > 0 {
 				if r.CurrentID != nil && r.CurrentID.Err != "" {
@@ -354,7 +457,13 @@ func judge(c *vf.Ctx, sp spec, res *runRes) {
 			c.Sample(map[string]any{"run": sp.Run, "vacuum": sp.Vacuum, "compress": sp.Compress, "round": r.No, "last_index": r.Li,
 				"pending_writes": len(pending), "after_failed_round": true, "uploaded_id": okUp.ID, "bytes": okUp.N})
 		}
+		if !sampledFlap && changed && okUp != nil && r.OffBefore > 0 {
+			sampledFlap = true
+			c.Sample(map[string]any{"run": sp.Run, "vacuum": sp.Vacuum, "compress": sp.Compress, "round": r.No, "last_index": r.Li,
+				"pending_writes": len(pending), "after_failed_round": prevFailed, "disabled_ticks_directly_before": r.OffBefore, "uploaded_id": okUp.ID, "bytes": okUp.N})
+		}
 		if okUp != nil {
+			offSinceOK = 0
 			prevFailed = false
 		} else if roundFailed {
 			prevFailed = true
